@@ -1,5 +1,4 @@
-import NeumannModel.TxWal.Lemmas
-import NeumannModel.Common.Crc32
+import NeumannModel.TxWal.Demo
 /-
   C13 — 2PC coordinator restart preserves every logged decision.
   ONLY the property theorems and their non-vacuity examples; helpers are in `Lemmas.lean`.
@@ -12,42 +11,9 @@ import NeumannModel.Common.Crc32
   id and that the records in the file at a crash are well-formed (`CodecOK`).
 -/
 namespace Neumann.TxWal.Props
-open Neumann.TxWal Neumann.FramedLog
+open Neumann.TxWal Neumann.FramedLog Neumann.TxWal.Demo
 
 variable (crc : List Nat → Nat) (ser : Entry → List Nat) (de : List Nat → Option Entry)
-
-/-! ### table codec and a concrete run used by the non-vacuity examples -/
-
-def toyTable : List (Entry × List Nat) :=
-  [(.txBegin 1 [0, 1], [1]), (.prepareVote 1 0 (.yes 7), [2]), (.prepareVote 1 0 .no, [3]),
-   (.prepareVote 1 1 (.yes 8), [4]), (.phaseChange 1 .preparing .prepared, [5]),
-   (.phaseChange 1 .prepared .committing, [6]), (.txComplete 1 .committed, [7, 7]),
-   (.lockRelease 1 8, [8]), (.lockRelease 1 7, [9]), (.allLocksReleased 1, [10]),
-   (.phaseChange 1 .prepared .aborting, [11]), (.txComplete 1 .aborted, [12])]
-
-def toySer (e : Entry) : List Nat := ((toyTable.find? (fun p => p.1 == e)).map (·.2)).getD [0]
-def toyDe (p : List Nat) : Option Entry := (toyTable.find? (fun q => q.2 == p)).map (·.1)
-
-/-- begin, two YES votes (with a rejected duplicate NO in between), commit, crash inside the
-    commit's records (byte 68 is inside the first LockRelease record, just after TxComplete), then abort and commit are tried -/
-def demoSteps : List Step :=
-  [.begin 1 [0, 1] 100, .lock 1 7, .vote 1 0 (.yes 7) false, .vote 1 0 .no false, .lock 1 8,
-   .vote 1 1 (.yes 8) false, .commit 1, .crash 68 200, .abort 1, .commit 1, .cleanup 99999]
-
-def demoCfg : Cfg := ⟨5000, 100⟩
-
-/-- the state just before the crash (no crash inside: plain evaluation) -/
-def demoPre : Coord := run Crc32.crc32 toySer toyDe { cfg := demoCfg } (demoSteps.take 7)
-
-theorem demoSteps_split : demoSteps = demoSteps.take 7 ++ (Step.crash 68 200 :: demoSteps.drop 8) := by decide
-
-/-- the crash at byte 68 of the 94-byte file keeps 7 of the 10 records (the cut is inside
-    LockRelease, after TxComplete) -/
-theorem demo_crash : (step Crc32.crc32 toySer toyDe demoPre (.crash 68 200)).1
-    = restartLog demoCfg (demoPre.log.take 7) 200 := by
-  rw [step_crash_eq Crc32.crc32 toySer toyDe demoPre 68 200 (by decide)]
-  have : wholeWithin Crc32.crc32 (demoPre.log.map toySer) 68 = 7 := by decide
-  rw [this]; rfl
 
 /-! ### a restart sees exactly the whole records before the cut -/
 
@@ -127,21 +93,6 @@ theorem logged_record_persists (c : Coord) (s : Step) (e : Entry)
 -- non-vacuity: the demo run (with its crash inside the commit's records) is valid, the commit's
 -- TxComplete record survives the cut at byte 68, and afterwards abort / commit / cleanup report
 -- nothing about transaction 1
-theorem demo_valid : Valid Crc32.crc32 toySer toyDe { cfg := demoCfg } demoSteps := by
-  rw [demoSteps_split, Valid_append]
-  refine ⟨by decide, ?_⟩
-  show StepOK _ _ _ demoPre _ ∧ Valid _ _ _ (step Crc32.crc32 toySer toyDe demoPre (.crash 68 200)).1 _
-  refine ⟨by decide, ?_⟩
-  rw [demo_crash]
-  decide
-
-theorem demo_run : run Crc32.crc32 toySer toyDe { cfg := demoCfg } demoSteps
-    = run Crc32.crc32 toySer toyDe (restartLog demoCfg (demoPre.log.take 7) 200) (demoSteps.drop 8) := by
-  conv => lhs; rw [demoSteps_split]
-  rw [run_append, run_cons]
-  show run _ _ _ (step Crc32.crc32 toySer toyDe demoPre (.crash 68 200)).1 _ = _
-  rw [demo_crash]
-
 example : Entry.txComplete 1 .committed ∈ (run Crc32.crc32 toySer toyDe { cfg := demoCfg } demoSteps).log := by
   rw [demo_run]; decide
 example : (step Crc32.crc32 toySer toyDe (restartLog demoCfg (demoPre.log.take 7) 200) (.abort 1)).2
@@ -209,6 +160,81 @@ theorem completed_locks_released (c : Coord) :
 -- non-vacuity: before the commit of the demo run the table holds both handles, after it none
 example : (run Crc32.crc32 toySer toyDe { cfg := demoCfg } (demoSteps.take 6)).locks = [(8, 1), (7, 1)]
     ∧ demoPre.locks = [] := by decide
+
+/-! ### what comes back after a restart -/
+
+/-- **Prepared transactions come back with their votes and can be completed.**  Cut the file of
+    any coordinator state at any byte and restart.  Every transaction that the surviving records
+    show as `Prepared` (all votes collected, no outcome: the scan of the surviving log holds it in
+    phase Prepared) is pending again in phase `Prepared` with its participants and exactly the
+    votes the scan kept; `commit` then succeeds and logs `TxComplete(Committed)`, and `abort`
+    succeeds and logs `TxComplete(Aborted)`.  The scan keeps at most one vote per shard, so
+    `restore_tx` never overwrites a vote (this is what the pre-fix scan violated, see
+    `rejected_vote_overwrites_witness`).
+    `_partial`: "the votes the scan keeps" are the first vote logged per shard while the
+    transaction was Preparing; that these coincide with the votes `record_vote` accepted in the
+    memory of the crashed process is not proved here as a run invariant — it is checked on the real
+    coordinator by the harness oracle (accepted-votes bookkeeping). -/
+theorem prepared_come_back_with_votes_partial (c : Coord) (n now : Nat)
+    (h : CodecOK crc ser de c.log) (x : Nat) (ip : InProg)
+    (hm : (x, ip) ∈ (scan (c.log.take (wholeWithin crc (c.log.map ser) n))).inProgress)
+    (hp : ip.phase = .prepared) :
+    mLookup x (step crc ser de c (.crash n now)).1.pending
+        = some (restoreTx ⟨x, ip.parts, ip.votes⟩ .prepared now)
+    ∧ (mKeys ip.votes).Nodup
+    ∧ (commit (step crc ser de c (.crash n now)).1 x).2 = Res.ok
+    ∧ Entry.txComplete x .committed ∈ (commit (step crc ser de c (.crash n now)).1 x).1.log
+    ∧ (abort (step crc ser de c (.crash n now)).1 x).2 = Res.ok
+    ∧ Entry.txComplete x .aborted ∈ (abort (step crc ser de c (.crash n now)).1 x).1.log := by
+  rw [step_crash_eq crc ser de c n now h]
+  have hl := restart_prepared c.cfg _ now x ip hm hp
+  refine ⟨hl, scan_votes_one_per_shard _ x ip hm, ?_, ?_, ?_, ?_⟩
+  · simp [commit, hl, restoreTx]
+  · simp [commit, hl, restoreTx, Coord.append]
+  · simp [abort, hl]
+  · simp [abort, hl, Coord.append]
+
+/-- **Transactions still collecting votes are forgotten, without locks.**  After a crash at any
+    byte and restart: (1) everything pending was classified by the scan of the surviving log as
+    Prepared / Committing / Aborting and is restored faithfully from it — nothing in phase
+    Preparing comes back; (2) a transaction for which no PhaseChange record survived (it was still
+    collecting votes, or had only reached an unlogged in-memory abort) is not pending, and
+    commit / abort on it answer `not found`; (3) the lock table of the new process is empty. -/
+theorem preparing_forgotten_without_locks (c : Coord) (n now : Nat) (h : CodecOK crc ser de c.log) :
+    (∀ x tx, mLookup x (step crc ser de c (.crash n now)).1.pending = some tx →
+        (tx.phase = .prepared ∨ tx.phase = .committing ∨ tx.phase = .aborting)
+        ∧ ∃ ip, (x, ip) ∈ (scan (c.log.take (wholeWithin crc (c.log.map ser) n))).inProgress
+              ∧ tx = restoreTx ⟨x, ip.parts, ip.votes⟩ ip.phase now)
+    ∧ (∀ x, (∀ f t, Entry.phaseChange x f t ∉ c.log.take (wholeWithin crc (c.log.map ser) n)) →
+        mLookup x (step crc ser de c (.crash n now)).1.pending = none
+        ∧ (commit (step crc ser de c (.crash n now)).1 x).2 = Res.notFound
+        ∧ (abort (step crc ser de c (.crash n now)).1 x).2 = Res.notFound)
+    ∧ (step crc ser de c (.crash n now)).1.locks = [] := by
+  have hlocks := (completed_locks_released crc ser de c).2.2.2 n now h
+  rw [step_crash_eq crc ser de c n now h] at hlocks ⊢
+  refine ⟨?_, ?_, hlocks⟩
+  · intro x tx hl
+    obtain ⟨ip, hm, hph, rfl⟩ := restart_pending _ _ _ _ _ hl
+    exact ⟨by simpa [restoreTx] using hph, ip, hm, rfl⟩
+  · intro x hno
+    have hnone : mLookup x (restartLog c.cfg (c.log.take (wholeWithin crc (c.log.map ser) n)) now).pending = none := by
+      cases hl : mLookup x (restartLog c.cfg (c.log.take (wholeWithin crc (c.log.map ser) n)) now).pending with
+      | none => rfl
+      | some tx =>
+        obtain ⟨ip, hm, hph, _⟩ := restart_pending _ _ _ _ _ hl
+        have hne : ip.phase ≠ .preparing := by
+          rcases hph with h | h | h <;> (rw [h]; decide)
+        obtain ⟨f, t, hft⟩ := scan_phase_logged _ x ip hm hne
+        exact absurd hft (hno f t)
+    exact ⟨hnone, by simp [commit, hnone], by simp [abort, hnone]⟩
+
+-- non-vacuity: cut the demo file after the PhaseChange->Prepared record (byte 45..53): transaction
+-- 1 is Prepared in the surviving log and comes back with both YES votes; cut it before that record
+-- (byte 40): no PhaseChange survives and the transaction is forgotten
+example : (1, (⟨[0, 1], [(0, .yes 7), (1, .yes 8)], .prepared⟩ : InProg))
+    ∈ (scan (demoPre.log.take (wholeWithin Crc32.crc32 (demoPre.log.map toySer) 50))).inProgress := by decide
+example : ∀ f t, Entry.phaseChange 1 f t ∉ demoPre.log.take (wholeWithin Crc32.crc32 (demoPre.log.map toySer) 40) := by
+  intro f t; cases f <;> cases t <;> decide
 
 /-! ### the defects the fixes removed, as concrete witnesses -/
 
